@@ -8,10 +8,19 @@ from lib import vcheck
 def run(ctx, replay):
     binary = ctx.build("c05")
     if replay:
+        r = json.load(open(replay))
+        if isinstance(r.get("case"), dict) and r["case"].get("kind") == "kept":
+            path = os.path.join(ctx.scratch, "replay.ndjson")
+            with open(path, "w") as f:
+                f.write(json.dumps(r["case"]) + "\n")
+            ctx.harness(binary, cases=path, n=0)
+            return ctx.finish("model_checking")
         raise vcheck.Infra("C05 violations are trace events: rerun `bin/check C05` with VERIF_SEED=%s (the replay file holds the concrete report options and profile)" % json.load(open(replay)).get("seed"))
     thorough = ctx.tier == "thorough"
     # model: the rebuild-with-kept-set mechanism against the declarative tables, every subset K
-    ctx.tlc("Trim", "MCTrim.cfg", consts={"Tier": ctx.tier}, timeout=3000, name="MCTrim")
+    kept = os.path.join(ctx.scratch, "kept.ndjson")
+    ctx.tlc("Trim", "MCTrim.cfg", consts={"Tier": ctx.tier, "Emit": True}, emit_to=kept, timeout=3000, name="MCTrim")
+    ctx.harness(binary, cases=kept, n=0, name="c05-kept-sets")
     g = ctx.tlc("Trim", "MCTrim.cfg", consts={"Tier": "quick", "Broken": "flatToLastKept"}, expect_ok=False, timeout=600,
                 name="MCTrim-broken-flat")
     if g["violated"] != "ShownKeepNumbers":
@@ -20,7 +29,7 @@ def run(ctx, replay):
     cases = os.path.join(ctx.scratch, "cases.ndjson")
     ctx.tlc("Report", "MCReport.cfg", consts={"Tier": "quick", "Emit": True}, emit_to=cases, timeout=900, name="GenReportCases")
     trace = os.path.join(ctx.scratch, "trace.ndjson")
-    ctx.harness(binary, cases=cases, trace=trace, n=1500 if thorough else 150)
+    ctx.harness(binary, cases=cases, trace=trace, n=1500 if thorough else 300)
     vcheck.sharded_trace(ctx, "TraceTrim", "TraceTrim.cfg", trace, trace + ".in", check="trace-trim",
                          describe=lambda ev: "trim:%s:%s" % (ev["form"], why(ev)), key="id")
     return ctx.finish(
